@@ -24,11 +24,32 @@ CLAIM = {
              "loop terminates within an explicit fuel bound computed from the repository and the date, for every pop "
              "order (C09_terminates, C09_convert_total, C09_no_crash); the cache is a transparent memo table "
              "(C09_cache_transparent). C09_tie_witness shows that the rate (not the distance) may depend on the visiting "
-             "order when equally good chains disagree."),
+             "order when equally good chains disagree. "
+             "The price-database FILE is modelled too (Okane.PriceDbFile: price_db_entry, character::newlines, the "
+             "ParsedIter of parse_repeated with ParseError's error_span / line_start, and load_price_db's loop): "
+             "proved: the parser reads back every list of well-formed records printed one per line, also with CRLF line "
+             "ends and arbitrary runs of CR/LF between the lines (C09_pdb_roundtrip, C09_pdb_roundtrip_layout); for every "
+             "text it returns records or a ParseError, never an assert / fuel-out, for every fuel above the length "
+             "(C09_pdb_parse_total, C09_pdb_parse_fuel); load_price_db and the price-db part of process are total and "
+             "succeed exactly when the parser accepts (C09_pdb_load_total, C09_pdb_process_total); a line not starting "
+             "with P is rejected at its first character and a line without line end (missing final new-line, `;`, lone "
+             "CR) is rejected where the line end is missing (C09_pdb_rejects_nonP, C09_pdb_rejects_unterminated); after "
+             "loading, every record P d A x B with x != 0 is stored under B->A with rate x and under A->B with 1/x, "
+             "source PriceDB (C09_pdb_loaded, C09_pdb_entry, C09_pdb_print_load), zero-amount records change nothing in "
+             "the builder (C09_pdb_zero), and after process a pair holds exactly the file's records if it has any, else "
+             "the ledger's (C09_pdb_priority). Not proved: a converse characterisation of ALL accepted texts (the round "
+             "trip covers the canonical print and its CR/LF layouts; other accepted spellings - several blanks or tabs "
+             "between fields, hyphenated or unpadded dates, `5USD` - are covered by the correspondence check only)."),
     "note": ("rust_decimal is modelled as exact rationals (generated rates are products of powers of 2 and 5 so that every "
              "product and reciprocal is exact; an extra stream with factors 3/7 is compared with a 1e-18 relative tolerance "
-             "and tagged). Price-db lines reach the model as the generator's structured records (core's price parser is not "
-             "public); the real code reads the text file. Chains in the theorems may revisit commodities (a stronger lower "
+             "and tagged). The price-db TEXT goes to the model, which parses and loads it itself; the generator's structured "
+             "records are a cross-check (the model-parsed records must equal them) and the conversions returned by the "
+             "real code tie the real parser's records to the model's. core's price parser is not public: the real code is "
+             "driven through report::process with a price_db_path, its ParseError is read from the Debug text "
+             "(error_span, line_start) and must equal the model's. A malformed-price-db stream (truncations, bad dates, "
+             "zero / negative / expression amounts, same commodity, missing final new-line, CRLF, comments, blanks, "
+             "mutations) compares ok/err class and error position; an independent oracle in the generator predicts the "
+             "class and line_start of every constructed case. Chains in the theorems may revisit commodities (a stronger lower "
              "bound); the python oracle enumerates simple chains. Same-day records: the code takes the largest rate of "
              "the day per direction; the oracle accepts any record of the most recent day, the model pins the exact choice. "
              "The driver runs the model with fuel = the proved bound, under 10 pop/neighbour-order combinations, and "
@@ -58,6 +79,19 @@ THEOREMS = [
     "Okane.Price.C09_no_crash",
     "Okane.Price.C09_convert_total",
     "Okane.Price.C09_tie_witness",
+    "Okane.Price.C09_pdb_roundtrip",
+    "Okane.Price.C09_pdb_roundtrip_layout",
+    "Okane.Price.C09_pdb_parse_total",
+    "Okane.Price.C09_pdb_parse_fuel",
+    "Okane.Price.C09_pdb_load_total",
+    "Okane.Price.C09_pdb_process_total",
+    "Okane.Price.C09_pdb_rejects_nonP",
+    "Okane.Price.C09_pdb_rejects_unterminated",
+    "Okane.Price.C09_pdb_loaded",
+    "Okane.Price.C09_pdb_entry",
+    "Okane.Price.C09_pdb_zero",
+    "Okane.Price.C09_pdb_priority",
+    "Okane.Price.C09_pdb_print_load",
 ]
 
 # ------------------------------------------------------------------------------------------------
@@ -389,8 +423,10 @@ def check_case(chk, cid, comms, evs, fs, tol=None):
 def case_line(cid, comms, evs, rng=None):
     ledger, db, pdb = render(evs, rng)
     dates = query_dates(evs)
-    return "%s dates=(%s) comms=(%s) pdb=%s db=%s ledger=%s" % (
-        cid, " ".join(sx_date(d) for d in dates), " ".join(enc(c) for c in comms), pdb, enc(db), enc(ledger)), ledger, db
+    # an empty price db is given either as an empty file or as no price_db_path at all (no `db` field)
+    dbf = "" if (db == "" and rng is not None and rng.random() < 0.5) else " db=%s" % enc(db)
+    return "%s dates=(%s) comms=(%s) pdb=%s%s ledger=%s" % (
+        cid, " ".join(sx_date(d) for d in dates), " ".join(enc(c) for c in comms), pdb, dbf, enc(ledger)), ledger, db
 
 
 # hand-written boundary cases (corpus-like; run first)
@@ -427,6 +463,229 @@ def fixed_cases():
     return out
 
 
+# ------------------------------------------------------------------------------------------------
+# the price-db file stream: accepted spellings and malformed files
+#
+# A case is a list of segments (text, kind): "entry" (a line the grammar accepts, with its line end), "blank"
+# (a run of CR / LF characters), "bad" (a line that must be rejected wherever it stands) or "badeof" (must be
+# rejected when it is the end of the file).  The oracle below predicts, from the construction alone:
+#   class      ok iff there is no bad segment;
+#   line_start of the ParseError = 1 + number of LF before the checkpoint of the failing `next()` call, which is
+#              the end of the last entry in front of the bad segment (the separator is consumed after the checkpoint);
+#   records    (date, target, value, commodity) of the entries when the file is accepted.
+
+PDB_LEDGER = "2024/01/01 open\n    Assets:A    1 A\n    Equity    -1 A\n"
+Q_COMMS = ["A", "B", "C", "D"]
+ODD_COMMS = ["$", "€", "日本円", "JRTOK", "X_y", "%", "'q'", "a\"b", "USD", "ÅÄ", "#x", "~", "F\x0c", "\u3000"]
+# (text, value): numbers the literal grammar accepts
+GOOD_NUMS = [("2", F(2)), ("0.5", F(1, 2)), ("1,250", F(1250)), ("12.50", F(25, 2)), ("-4", F(-4)), ("0", F(0)),
+             ("0.000", F(0)), ("3", F(3)), ("1,234,567.89", F(123456789, 100)), ("007", F(7)), ("16", F(16)),
+             ("0.125", F(1, 8)), ("-0.5", F(-1, 2)), ("100", F(100)), ("1000", F(1000)), ("-0", F(0)), ("5.", F(5)),
+             ("0.0000000000000000000000000001", F(1, 10 ** 28)), ("79,228,162,514,264,337,593,543,950,335", F(2 ** 96 - 1))]
+EXTREME = {"0.0000000000000000000000000001", "79,228,162,514,264,337,593,543,950,335"}
+BAD_NUMS = ["1.2.3", "1,23", "12,34", ",", "-", ".", "1,2345", "1,,234", "79228162514264337593543950336",
+            "0.00000000000000000000000000001", "--1", "+1", "1e5", "0x10", "١٢"]
+BAD_LINES = [
+    "; comment", "# comment", "* comment", "% comment", "| x", " ", "\t", "  P 2024/01/01 A 1 B", "p 2024/01/01 A 1 B",
+    "PP 2024/01/01 A 1 B", "P2024/01/01 A 1 B", "P", "P ", "P 2024/01/01", "P 2024/01/01 ", "P 2024/01/01 A",
+    "P 2024/01/01 A ", "P 2024/01/01 A B", "P 2024/13/01 A 1 B", "P 2024/02/30 A 1 B", "P 2023/02/29 A 1 B",
+    "P 2024/00/10 A 1 B", "P 2024/01/00 A 1 B", "P 2024/01/32 A 1 B", "P 20240101 A 1 B", "P 2024/01-01 A 1 B",
+    "P 2024-01/01 A 1 B", "P 12345/01/01 A 1 B", "P 2024/001/01 A 1 B", "P 2024/01/001 A 1 B", "P 2024/01 A 1 B",
+    "P 2024.01.01 A 1 B", "P 01/02/2024x A 1 B", "P 2022/02/02 17:06:00 DCTOPIX 22,745 JPY", "P 2024/01/01 A (1+2) B",
+    "P 2024/01/01 A (3) B", "P 2024/01/01 A 1+2 B", "P 2024/01/01 A 1 * 2 B", "P 2024/01/01 A 1 B ; note",
+    "P 2024/01/01 A 1 B;note", "P 2024/01/01 A 1 B ", "P 2024/01/01 A 1 B\t", "P 2024/01/01 A 1 B C", "P 2024/01/01 A1 1 B",
+    "P 2024/01/01 \"A B\" 1 C", "P 2024/01/01 A B 1", "P 2024/01/01 A $1", "P 2024/01/01 A 1 B 2", "P 2024/01/01 A 1 @ 2 B",
+    "P 2024/01/01 A 1 B", "P 2024/01/01 A 1 B", "P 2024/01/01 A　1 B", "P ２０２４/01/01 A 1 B",
+    "N 2024/01/01 A", "D 1,000.00 A", "2024/01/01 A 1 B", "P 2024/01/01 A 1 B\rP 2024/01/02 A 1 B", "P 2024/01/01 A 1 B\r \r",
+    "\x0c", "\x0b", "\ufeffP 2024/01/01 A 1 B",
+]
+
+
+def pdb_entry(rng, queried):
+    """one accepted line (without line end), its record and whether it may take part in queries"""
+    day = BASE + datetime.timedelta(days=rng.choice(OFFSETS))
+    style = rng.choice(["slash", "slash", "hyphen", "slash1", "hyphen1"])
+    if style == "slash":
+        dtext = day.strftime("%Y/%m/%d")
+    elif style == "hyphen":
+        dtext = day.strftime("%Y-%m-%d")
+    elif style == "slash1":
+        dtext = "%d/%d/%d" % (day.year, day.month, day.day)
+    else:
+        dtext = "%d-%d-%d" % (day.year, day.month, day.day)
+    if queried:
+        target, comm = rng.sample(Q_COMMS, 2) if rng.random() < 0.93 else [rng.choice(Q_COMMS)] * 2
+        num, val = rng.choice([n for n in GOOD_NUMS if n[0] not in EXTREME])
+    else:
+        target = rng.choice(ODD_COMMS)
+        comm = rng.choice(ODD_COMMS + ["", target])
+        num, val = rng.choice(GOOD_NUMS)
+    sep = lambda: rng.choice([" ", " ", " ", "  ", "\t", " \t ", "\t\t"])
+    amount = num if comm == "" else num + rng.choice([" ", " ", " ", "", "  ", "\t"]) + comm
+    text = "P" + sep() + dtext + sep() + target + sep() + amount
+    return text, (day, target, val, comm)
+
+
+def pdb_bad_line(rng):
+    k = rng.random()
+    if k < 0.7:
+        return rng.choice(BAD_LINES)
+    if k < 0.85:
+        return "P 2024/01/01 A %s B" % rng.choice(BAD_NUMS)
+    return "P 2024/01/01 A %s" % rng.choice(BAD_NUMS)
+
+
+def gen_pdb_case(rng, want_bad):
+    segs = []
+    queried = rng.random() < 0.6
+    if rng.random() < 0.3:
+        segs.append((rng.choice(["\n", "\r\n", "\n\n", "\r", "\r\r\n\n"]), "blank"))
+    for _ in range(rng.choice([0, 1, 1, 2, 3, 4, 6])):
+        text, rec = pdb_entry(rng, queried)
+        segs.append((text + rng.choice(["\n", "\n", "\n", "\r\n"]), "entry", rec))
+        if rng.random() < 0.25:
+            segs.append((rng.choice(["\n", "\r\n", "\n\r\n", "\r", "\n\n\n", "\r\r"]), "blank"))
+    if want_bad:
+        kind = rng.random()
+        if kind < 0.55:
+            # a bad line somewhere; whatever follows is never looked at
+            term = rng.choice(["\n", "\n", "\r\n", ""])
+            # without a line end of its own the bad line is the end of the file (so that it stays what it is)
+            pos = rng.randrange(len(segs) + 1) if term else len(segs)
+            segs.insert(pos, (pdb_bad_line(rng) + term, "bad"))
+        else:
+            # the last line lacks its line end: complete, cut anywhere, or ended by a lone CR
+            text, rec = pdb_entry(rng, queried)
+            how = rng.random()
+            if how < 0.4:
+                tail = text
+            elif how < 0.8:
+                tail = text[:rng.randrange(1, len(text) + 1)]
+            else:
+                tail = text + "\r"
+            segs.append((tail, "bad"))
+    return segs, queried
+
+
+def pdb_expect(segs):
+    """(class, line_start or None, records)"""
+    text, checkpoint, recs = "", 0, []
+    for s in segs:
+        if s[1] == "bad":
+            return "err", 1 + text[:checkpoint].count("\n"), None
+        text += s[0]
+        if s[1] == "entry":
+            checkpoint = len(text)
+            recs.append(s[2])
+    return "ok", None, recs
+
+
+def mutate_text(rng, text):
+    """random edit of an accepted file; the class is not predicted (model vs implementation only)"""
+    if not text:
+        return rng.choice(["P", " ", "\r", "x"])
+    k = rng.randrange(len(text))
+    how = rng.random()
+    pool = " \t\r\n0123456789.,;-/P$€A()x"
+    if how < 0.35:
+        return text[:k] + text[k + 1:]
+    if how < 0.7:
+        return text[:k] + rng.choice(pool) + text[k:]
+    if how < 0.9:
+        return text[:k] + rng.choice(pool) + text[k + 1:]
+    return text[:k]
+
+
+def pdb_line(cid, text, recs, queried):
+    if recs is not None:
+        pdb = "(" + " ".join("(P %s %s %s %s)" % (sx_date(d), enc(t), dec_triple(v), enc(c)) for d, t, v, c in recs) + ")"
+    else:
+        pdb = "-"
+    dates, comms = [], []
+    if recs and queried:
+        ds = sorted({r[0] for r in recs})
+        dates = sorted(set(ds) | {ds[0] - datetime.timedelta(days=1), ds[-1] + datetime.timedelta(days=50)})
+        comms = Q_COMMS
+    return "%s dates=(%s) comms=(%s) pdb=%s db=%s ledger=%s" % (
+        cid, " ".join(sx_date(d) for d in dates), " ".join(enc(c) for c in comms), pdb, enc(text), enc(PDB_LEDGER))
+
+
+def run_pdb_stream(chk):
+    n_con = 700 if chk.tier == "quick" else 12000
+    n_mut = 300 if chk.tier == "quick" else 8000
+    cases = []      # (cid, text, expectation or None)
+    fixed = [
+        ("pf-unit-test", [("P 2023/12/31 JRTOK 3,584 JPY\n", "entry", (datetime.date(2023, 12, 31), "JRTOK", F(3584), "JPY")),
+                          ("P 2024-10-28 EUR 0.9367 CHF\n", "entry", (datetime.date(2024, 10, 28), "EUR", F(9367, 10000), "CHF"))]),
+        ("pf-empty", []), ("pf-only-newlines", [("\n\r\n\r", "blank")]),
+        ("pf-no-final-newline", [("P 2024/01/01 A 2 B", "bad")]),
+        ("pf-datetime", [("P 2022/02/02 17:06:00 DCTOPIX 22,745 JPY\n", "bad")]),
+        ("pf-comment-after-entry", [("P 2024/01/01 A 2 B\n", "entry", (BASE, "A", F(2), "B")), ("; c\n", "bad")]),
+        ("pf-zero", [("P 2024/01/01 A 0 B\n", "entry", (BASE, "A", F(0), "B"))]),
+        ("pf-self", [("P 2024/01/01 A 2 A\n", "entry", (BASE, "A", F(2), "A"))]),
+    ]
+    for cid, segs in fixed:
+        cases.append((cid, "".join(x[0] for x in segs), pdb_expect(segs), True))
+    for i in range(n_con):
+        segs, queried = gen_pdb_case(chk.rng, want_bad=chk.rng.random() < 0.6)
+        cases.append(("pc%d" % i, "".join(x[0] for x in segs), pdb_expect(segs), queried))
+    for i in range(n_mut):
+        segs, _ = gen_pdb_case(chk.rng, want_bad=False)
+        text = "".join(x[0] for x in segs)
+        for _ in range(chk.rng.choice([1, 1, 2, 3])):
+            text = mutate_text(chk.rng, text)
+        cases.append(("pm%d" % i, text, None, False))
+    lines = [pdb_line(cid, text, exp[2] if exp else None, q) for cid, text, exp, q in cases]
+    impl = run_sharded(HX, ["c09"], lines)
+    model = run_sharded(DRV, ["c09"], impl)
+    chk.streams["price-db-file(accepted spellings, malformed, mutated)"] = len(lines)
+    for (cid, text, exp, queried), line, a, b in zip(cases, lines, impl, model):
+        _, fs = split_fields(a)
+        chk.traces += 1
+        res = fs.get("result", "")
+        dberr = fs.get("dberr")
+        cls = "ok" if res == "ok" else ("err" if dberr and dberr != "io" else "other")
+        kind = "constructed" if exp else "mutated"
+        chk.count("pdb_stream=%s" % kind)
+        chk.count("pdb_class=%s" % cls)
+        chk.case(("pdb", text), nontrivial=(cls == "err" or "\r" in text or "\t" in text or "-" in text))
+        replay = {"case": cid, "price_db": text, "ledger": PDB_LEDGER, "line": line,
+                  "rerun": "printf '%%s\\n' '<line>' | %s c09 | %s c09   (line in this file under `line`)" % (HX, DRV)}
+        if cls == "other":
+            chk.oracle_failures += 1
+            chk.violation("price db: the real code neither loads the file nor reports a price-db parse error: %s" % res[:200],
+                          dict(replay, observed=a[:1500]))
+            continue
+        if exp is not None:
+            want, want_line, recs = exp
+            msg = None
+            if want != cls:
+                msg = "price db: expected the file to be %s, the real code %s it (%s)" % (
+                    "accepted" if want == "ok" else "rejected", "accepts" if cls == "ok" else "rejects", dberr or res)
+            elif want == "err":
+                got_line = int(dberr.strip("()").split()[2])
+                chk.count("pdb_error_line=%d" % min(got_line, 6))
+                if got_line != want_line:
+                    msg = "price db: parse error reported for line %d, the malformed entry starts after line %d" % (got_line, want_line)
+            if msg:
+                chk.oracle_failures += 1
+                chk.violation(msg, dict(replay, expected={"class": want, "line_start": want_line}, observed=a[-600:]))
+                continue
+        if " agree " not in b + " ":
+            chk.disagreements += 1
+            chk.violation("price-db file: model and implementation disagree: " + b[:300],
+                          dict(replay, stream="c09 price-db file", model=b, impl=a[-1500:]),
+                          no_failing_input=(exp is None or exp[0] == cls), tag="corr")
+        elif "dberr=" in b:
+            chk.count("pdb_error_position_agrees")
+        else:
+            chk.count("pdb_records_agree")
+    for k in (3, 8 + 5, 8 + n_con + 1):
+        if k < len(lines):
+            chk.sample({"case": cases[k][0], "price_db": cases[k][1], "expected": str(cases[k][2])[:200],
+                        "impl": impl[k][-200:], "model": model[k]})
+
+
 def tie_probe(chk):
     """Two equally good chains with different rate products: does the real binary answer differently across
     processes?  (A determinism matter, C13; reported, not counted against C09.)"""
@@ -454,10 +713,14 @@ def run(chk):
                 "zero-amount events, self-mentions, negative rates), transactions in shuffled file order; queried through "
                 "Ledger::eval(\"1 A\", {date, exchange: B}) for ALL ordered pairs and all dates in {each price date, the day "
                 "before, the day after, 30 days before the first, 400 days after the last}. A query is non-trivial when more "
-                "than one chain links the pair at that date; distinct = distinct case texts.")
+                "than one chain links the pair at that date; distinct = distinct case texts. "
+                "Price-db file stream: files built from accepted spellings of `P date commodity amount` lines (slash / hyphen / "
+                "unpadded dates, blanks and tabs, CRLF, empty lines, grouped / negative / zero / extreme numbers, empty, unicode "
+                "and same commodities), 60% of them with one malformed line or an unterminated last line (class and line_start "
+                "predicted by construction), plus randomly edited files (model vs implementation only).")
     chk.assumptions = [
         "rust_decimal arithmetic is modelled as exact rationals; generated rates are 2^a*5^b so products/reciprocals are exact (the `inexact` stream uses a factor 3 and a 1e-18 tolerance)",
-        "price-db text -> records: the model receives the generator's structured records; the real code parses the text file",
+        "price-db file: core's parser is not public, so the real code is observed through report::process (ok / ReportError::PriceDB with the ParseError's error_span and line_start read from its Debug text, and the conversions it then answers); reading the file (std::fs::read_to_string: missing file, invalid UTF-8) is outside the model",
         "the (commodity_with, date) cache of PriceRepository is modelled as a memo table and proved transparent (C09_cache_transparent)",
     ]
     if not standard_prologue(chk, THEOREMS):
@@ -526,6 +789,7 @@ def run(chk):
                 chk.count("cases_compared_with_tolerance")
     chk.count("queries", nq)
     chk.distribution["max_loop_iterations_bucket"] = maxsteps
+    run_pdb_stream(chk)
     # the hash-order tie (C13 matter): report only
     try:
         outs = tie_probe(chk)
